@@ -107,8 +107,11 @@ func distSeg(a, b, p orb.Point) float64 {
 	return dist(orb.Point{a[0] + t*dx, a[1] + t*dy}, p)
 }
 
+var scales = []float64{1024, 1.0 / 64}
+
 func main() {
 	r := ev.New("C12", "exploration")
+	scales = scales[:ev.Pick(r, 1, 2)]
 	r.Rule = "every vertex list of 0..N points on the 4x4 integer grid (repeated, collinear, coincident endpoints; the closed ones double as rings) x every threshold of a set that contains 0, every realisable critical value on the grid (point-segment distances for Douglas-Peucker, point-point distances for radial, half-integer areas for Visvalingam), the midpoints between consecutive critical values and one value above the largest - i.e. all thresholds up to order-equivalence; an execution is one vertex list (all simplifiers and thresholds inside); non-trivial = at least one simplifier dropped a vertex and at least one kept an interior vertex"
 	r.Assume = []string{
 		"simplifiers work in place (documented), inputs are cloned for every run",
@@ -184,6 +187,13 @@ func main() {
 				c.Failf("dp-idempotent", "%s(%v) = %v, simplifying again gives %v", what, in, out, again)
 				return
 			}
+			// the line and the threshold scaled by a power of two (exact): the bit-for-bit scaled result
+			for _, k := range scales {
+				if o2 := simplify.DouglasPeucker(t * k).LineString(refgeom.Scale(in, k).(orb.LineString)); !refgeom.Equal(o2, refgeom.Scale(out, k)) {
+					c.Failf("scaling", "%s: line and threshold scaled by %v give %v, unscaled %v | %v", what, k, o2, out, in)
+					return
+				}
+			}
 			if ti > 0 && !subseq(out, prev) {
 				c.Failf("dp-nested", "DouglasPeucker on %v: threshold %v keeps %v, the smaller threshold %v kept %v", in, t, out, dT[ti-1], prev)
 				return
@@ -206,6 +216,12 @@ func main() {
 			if o2 := simplify.Radial(halfDistance, t/2).LineString(in.Clone()); !same(o2, out) {
 				c.Failf("radial-metric", "Radial(distance/2, %v) gives %v, Radial(distance, %v) gives %v | %v", t/2, o2, t, out, in)
 				return
+			}
+			for _, k := range scales {
+				if o2 := simplify.Radial(dist, t*k).LineString(refgeom.Scale(in, k).(orb.LineString)); !refgeom.Equal(o2, refgeom.Scale(out, k)) {
+					c.Failf("scaling", "%s: line and threshold scaled by %v give %v, unscaled %v | %v", what, k, o2, out, in)
+					return
+				}
 			}
 			if !basic("radial-subsequence", out, what) {
 				return
@@ -235,6 +251,12 @@ func main() {
 			if o2 := simplify.VisvalingamThreshold(t).LineString(orb.LineString(refgeom.Spare(in))); !same(o2, out) {
 				c.Failf("layout-dependent", "%s gives %v for the line with spare capacity behind it and %v otherwise | %v", what, o2, out, in)
 				return
+			}
+			for _, k := range scales {
+				if o2 := simplify.VisvalingamThreshold(t * k * k).LineString(refgeom.Scale(in, k).(orb.LineString)); !refgeom.Equal(o2, refgeom.Scale(out, k)) {
+					c.Failf("scaling", "%s: line scaled by %v and threshold by its square give %v, unscaled %v | %v", what, k, o2, out, in)
+					return
+				}
 			}
 			if !basic("vis-subsequence", out, what) {
 				return
